@@ -104,6 +104,11 @@ func (k Keeper) RegisterNewTokenAndSetTokenFeeder(ctx sdk.Context, oInfo *types.
 		EndBlock: 0,
 	})
 
+	// the interval comes from the caller: store only params that validate (an interval shorter than
+	// twice the round window makes rounds overlap, and invalid params block every later update)
+	if err := p.Validate(); err != nil {
+		return err
+	}
 	k.SetParams(ctx, p)
 	// skip cache update if this is not deliverTx
 	// for normal cosmostx, checkTx will skip actual message exucution and do anteHandler only, but from ethc.callContract the message will be executed without anteHandler check as checkTx mode.
